@@ -383,7 +383,7 @@ func (env *Env) convAxioms() {
 		"(assert (forall ((f F64)) (! (=> (and (not (fp.isNaN f)) (not (fp.isInfinite f))) (and (= (f2i64 f) (f2i64 (fp.roundToIntegral RTZ f))) (=> (fp.eq (fp.roundToIntegral RTZ f) f) (fp.eq (i2f64 (f2i64 f)) f)) (= (= (f2i64 f) 0) (fp.lt (fp.abs f) " + fpLit64(1) + ")) (=> (fp.geq f " + fpLit64(1) + ") (> (f2i64 f) 0)) (=> (fp.leq f " + fpLit64(-1) + ") (< (f2i64 f) 0)))) :pattern ((f2i64 f)))))",
 		"(assert (forall ((f F64) (g F64)) (! (=> (and (not (fp.isNaN f)) (not (fp.isInfinite f)) (not (fp.isNaN g)) (not (fp.isInfinite g)) (fp.leq f g)) (<= (f2i64 f) (f2i64 g))) :pattern ((f2i64 f) (f2i64 g)))))",
 	}
-	anchors := []float64{0, 1, -1, 2, 255, 256, 32767, 32768, -32768, 65535, 65536, 2147483647, 2147483648, -2147483648, 4294967295, 4294967296, 9007199254740991, 9007199254740992, -9007199254740991, -9007199254740992, 9223372036854775808.0, -9223372036854775808.0, 18446744073709551616.0}
+	anchors := []float64{0, 1, -1, 2, 255, 256, 32767, 32768, -32768, 65535, 65536, 2147483647, 2147483648, -2147483648, 4294967295, 4294967296, 9007199254740991, 9007199254740992, -9007199254740991, -9007199254740992, 18014398509481984, -18014398509481984, 9223372036854775808.0, -9223372036854775808.0, 18446744073709551616.0}
 	for _, a := range anchors {
 		var is string
 		switch a {
@@ -731,6 +731,15 @@ func (env *Env) mathCall(name string, args []Val, rt types.Type) (Val, bool) {
 		return Val{T: fmt.Sprintf("(ite (or (fp.isNaN %s) (fp.isNaN %s)) (_ NaN 11 53) (fp.max %s %s))", a(0), a(1), a(0), a(1)), S: "F64"}, true
 	case "math.Min":
 		return Val{T: fmt.Sprintf("(ite (or (fp.isNaN %s) (fp.isNaN %s)) (_ NaN 11 53) (fp.min %s %s))", a(0), a(1), a(0), a(1)), S: "F64"}, true
+	case "math.Mod", "math.Pow", "math.Log", "math.Exp", "math.Sin", "math.Cos", "math.Atan2", "math.Hypot", "math.Cbrt", "math.Log2", "math.Log10", "math.Log1p", "math.Expm1", "math.Tan", "math.Asin", "math.Acos", "math.Atan", "math.Sinh", "math.Cosh", "math.Tanh", "math.Asinh", "math.Acosh", "math.Atanh":
+		var sorts, ts []string
+		for _, x := range args {
+			sorts = append(sorts, x.S)
+			ts = append(ts, x.T)
+		}
+		f := env.uf("uf_"+strings.ReplaceAll(name, ".", "_"), sorts, "F64")
+		env.e.note("pure math function modelled as uninterpreted: " + name)
+		return Val{T: fmt.Sprintf("(%s %s)", f, strings.Join(ts, " ")), S: "F64"}, true
 	case "math.Float64bits":
 		f := env.uf("f64bits", []string{"F64"}, "Int")
 		env.e.declPre("f64bits_ax", "(declare-fun f64frombits (Int) F64)\n(assert (forall ((f F64)) (! (and (<= 0 (f64bits f)) (< (f64bits f) 18446744073709551616) (=> (not (fp.isNaN f)) (= (f64frombits (f64bits f)) f))) :pattern ((f64bits f)))))")
